@@ -35,4 +35,14 @@ def parse_module(rel):
             elif isinstance(n, ast.ClassDef):
                 visit(n.body, prefix + n.name + ".")
     visit(tree.body, "")
+    # module-level constants (NAME = <literal>), so that e.g. MARKER = b'PAR1' is the byte string it denotes
+    consts = {}
+    for n in tree.body:
+        if isinstance(n, ast.Assign) and len(n.targets) == 1 and isinstance(n.targets[0], ast.Name):
+            v = n.value
+            if isinstance(v, ast.Constant) or (isinstance(v, ast.UnaryOp) and isinstance(v.operand, ast.Constant)) or \
+                    (isinstance(v, ast.BinOp) and all(isinstance(x, ast.Constant) for x in (v.left, v.right))):
+                consts[n.targets[0].id] = v
+    for f in funcs.values():
+        f.module_consts = consts
     return funcs, tree, src
